@@ -17,7 +17,8 @@ META = {
             "(guarantee proved at the sending rank, rely assumed at the receiver): afterwards the replicated string list is the concatenation of the ranks' local lists in rank order, "
             "expressions and maps are taken (copied) exactly where a string changed; the all-to-all exchange of the printed strings in initial_sympify is verified the same way "
             "(every rank ends with the concatenation of the ranks' lists in rank order), and so is the tail of shape_to_functions that gathers the rewritten trees (the three parallel "
-            "lists -- tree, string, string of the original -- are joined in rank order and stay aligned). The dictionary merge of initial_sympify and the gathers of do_sympy / simplify_inv_subs / "
+            "lists -- tree, string, string of the original -- are joined in rank order and stay aligned), the two proposal exchanges of sympy_simplify (change_indices / ref_indices / new_inv_subs) "
+            "and the exchange of expand_or_factor (change_vals / change_idx), all through one generic contract for gather / itertools.chain / bcast of parallel lists. The dictionary merge of initial_sympify and the scatter/gather of "
             "check_results are not lifted deductively; they are covered by the structural obligations and the bounded runs.",
     "note": "A-mpi (stand-in delivers collectives in rank order like MPI), A-hash (hash seed fixed per run). Bounded: core_maths/ext_maths, complexities in evidence.",
     "technique": "contract-based deductive verification of the partition function + bounded multi-process stand-in of generation",
@@ -51,6 +52,14 @@ def check(run):
         failed3 = list(failed3) + list(failed5)
     if D.canary(run, "generation/generator.py", "shape_to_functions", (lambda: c_spmd.stf_gather_contract(True))) is False:
         raise RuntimeError("canary verified: engine vacuous on the gather tail of shape_to_functions")
+    gjobs = [("sympy_simplify", "gather-%d %s" % (w, "root" if r else "other ranks"), (lambda w=w, r=r: c_spmd.sympy_simplify_gather_contract(w, r))) for w in (0, 1) for r in (True, False)] + \
+            [("expand_or_factor", "gather %s" % ("root" if r else "other ranks"), (lambda r=r: c_spmd.expand_or_factor_gather_contract(r))) for r in (True, False)]
+    for qual_, tag_, mk_ in gjobs:
+        st6, failed6, _e6 = D.verify_function(run, "generation/simplifier.py", qual_, mk_, timeout_ms=10000, tag=tag_,
+                                              note="region: gather / itertools.chain on the root / bcast of parallel per-rank lists (generic SPMD contract: joined in rank order, aligned)")
+        failed3 = list(failed3) + list(failed6)
+    if D.canary(run, "generation/simplifier.py", "sympy_simplify", (lambda: c_spmd.sympy_simplify_gather_contract(0, True))) is False:
+        raise RuntimeError("canary verified: engine vacuous on the gather region of sympy_simplify")
     lfailed = D.prove_lemmas(run, "make_changes: slice starts", c_spmd.lo_lemmas())
     if st3 == "proved" and D.canary(run, "generation/simplifier.py", "make_changes", c_spmd.make_changes_contract) is False:
         raise RuntimeError("canary verified: engine vacuous on make_changes")
